@@ -129,6 +129,10 @@ class BadCase(Exception):
     """The case dict is outside what run_case is defined for (generator bug)."""
 
 
+class SetupFailed(Exception):
+    """The library raised while the node object was being set up against a conformant drive."""
+
+
 class Rig:
     def __init__(self, case, start=R.SOD, force_sw=None):
         from canopen.profiles.p402 import BaseNode402
@@ -168,7 +172,10 @@ class Rig:
             node.TIMEOUT_SWITCH_OP_MODE = 0.05
         node.nmt.state = "OPERATIONAL"
         if case.get("setup", "read") == "read" or layout in ("E", "F"):
-            node.setup_402_state_machine(read_pdos=True)
+            try:
+                node.setup_402_state_machine(read_pdos=True)
+            except Exception as e:
+                raise SetupFailed(f"setup_402_state_machine(read_pdos=True): {type(e).__name__}: {e}") from e
         else:
             for kind, maps, bases, tt in (("rpdo", node.rpdo, R.RPDO_BASE, rpdo_tt),
                                           ("tpdo", node.tpdo, R.TPDO_BASE, tpdo_tt)):
@@ -181,7 +188,19 @@ class Rig:
                     m.trans_type = tt
                     for index, bits in entries or []:
                         m.add_variable(index, 0, bits)
-            node.setup_402_state_machine(read_pdos=False)
+            try:
+                node.setup_402_state_machine(read_pdos=False)
+            except Exception as e:
+                raise SetupFailed(f"setup_402_state_machine(read_pdos=False) with the maps configured in the "
+                                  f"object: {type(e).__name__}: {e}") from e
+            # the documented contract of read_pdos=False: the mappings configured in the object are used
+            for kind, maps in (("rpdo", node.rpdo), ("tpdo", node.tpdo)):
+                for n in maps:
+                    want = [(i, b) for i, b in (self.drive.layout[kind].get(n) or [])]
+                    got = [(v.index, v.length) for v in maps[n].map]
+                    if got != want:
+                        raise SetupFailed(f"setup_402_state_machine(read_pdos=False) changed {kind}[{n}] from "
+                                          f"{want} to {got}")
         self.sw_by_sdo = not any(i == 0x6041 for e in self.drive.layout["tpdo"].values() for i, _b in e)
         self.feeder = None
         if tr == "cycr":
@@ -518,6 +537,13 @@ def run_hist(case):
 
 
 def run_case(case) -> Outcome:
+    try:
+        return _run_case(case)
+    except SetupFailed as e:
+        return Outcome(True, f"{case['fam']}/setup-failed", [Discrepancy("C19/setup", str(e))])
+
+
+def _run_case(case) -> Outcome:
     fam = case["fam"]
     if fam == "decode":
         return run_decode(case)
